@@ -170,8 +170,14 @@ def gen_crlb_case(rng, i):
     else:
         W = np.array([rng.choice([0.5, 1, 2, 3]) for _ in range(int(np.prod(batch)) * p)]).reshape(batch + (p,))
     s = rng.choice([1, 1, 2, 0.5, 4.0, 0.25, 3])
+    lg = rng.random() < 0.4
+    if i % 8 in (2, 3, 5, 7):      # weighted AND log10, sigma2 != 1, distinct weights per parameter (incl. batched complex J)
+        lg = True
+        s = s if s != 1 else rng.choice([2, 0.5, 3])
+        if W is None or (np.ndim(W) == 1 and len(set(np.asarray(W).tolist())) < p):
+            W = np.array([0.5, 2.0, 3.0, 0.25][:p][::rng.choice([1, -1])])
     return {"kind": "crlb", "batch": batch, "n": n, "p": p, "nx": nx, "J": J, "H": H, "W": W, "sigma2": s,
-            "log": rng.random() < 0.4, "cplx": cplx}
+            "log": lg, "cplx": cplx}
 
 
 SCALE_EXPS = [-40, -33, -27, -20, -17, -13, -7, 0, 7, 13, 20, 27, 33, 40]      # 2**-40 ~ 1e-12 ... 2**40 ~ 1e12
@@ -518,6 +524,13 @@ def crlb_oracle_disagrees(c, out):
         if c["log"]:
             if not abs(float(out["cost_log"][b]) - math.log10(ref)) <= 1e-8 * (1 + abs(math.log10(ref))):
                 return "log10 cost %r, log10 of the defining formula %r" % (float(out["cost_log"][b]), math.log10(ref))
+            sl = np.array([float(out["split_log"][(a,) + b]) for a in range(c["p"])])
+            exp = np.log10(w * np.diagonal(B))
+            if not np.all(np.abs(sl - exp) <= 1e-8 * (1 + np.abs(exp))):
+                return "crlb_split(log=True) %r, log10 of the weighted diagonal of the inverse Fisher matrix %r (W=%r, batch %s)" % (
+                    sl.tolist(), exp.tolist(), None if W is None else np.asarray(W).tolist(), b)
+            if not abs(float(np.sum(10.0 ** sl)) - ref) <= 1e-8 * (1 + abs(ref)):
+                return "sum(10**crlb_split(log=True)) = %r but crlb(J, W) = %r (batch %s)" % (float(np.sum(10.0 ** sl)), ref, b)
             if c["H"] is not None:
                 gl = g / ref / math.log(10)
                 if not np.all(np.abs(out["grad_log"][b] - gl) <= 1e-8 * (1 + np.abs(gl))):
@@ -713,6 +726,10 @@ def run(ctx):
         if c["log"]:
             for g in log_goals(c, out):
                 logmeta.append((g, c, out))
+            why = crlb_oracle_disagrees(c, out)      # log10 variants against the defining formula (numpy)
+            if why:
+                ctx.report("log10 variant of crlb / crlb_split deviates from its defining formula: " + why, {"case": case_json(c)},
+                           found_input=True, signature={"function": "crlb", "arg": "log"})
     for i in range(ncf):
         c = gen_confint_case(ctx.rng, i)
         try:
